@@ -245,12 +245,12 @@ class Deep:
         return v
 
     def discr_of(self, st, v, rv=None):
+        vm = tuple((val, n) for val, n in rv["variants"]) if rv else ()
         if v[0] == "variant":
-            return ("vconst", v[2])
+            return ("vconst", v[2], vm)
         kn = st.known.get(("discr", v))
         if kn is not None and len(kn) == 1:
-            return ("vconst", next(iter(kn)))
-        vm = tuple((val, n) for val, n in rv["variants"]) if rv else ()
+            return ("vconst", next(iter(kn)), vm)
         return ("discr", v, vm)
 
     # ---- execution ---------------------------------------------------------------------------------
@@ -325,12 +325,12 @@ class Deep:
 
         if v[0] == "vconst":
             # known variant: need the numeric map — look at the defining discr statement's map via known table
-            vm = self._vmap_for(fr, t)
+            vm = v[2] if len(v) > 2 and v[2] else self._vmap_for(fr, t)
             num = [val for val, n in vm if n == v[1]]
             if num:
                 tg = dict(targets).get(num[0], t["otherwise"])
                 return go(tg, st)
-            return go(t["otherwise"], st)
+            raise Unverifiable(f"deep: discriminant value of variant {v[1]} unknown in {body.short}")
         if is_const(v) and isinstance(v[1], (bool, int)):
             tg = dict(targets).get(int(v[1]), t["otherwise"])
             return go(tg, st)
@@ -511,6 +511,43 @@ class Deep:
             if co is not None and fr.depth < self.max_depth and co.key not in fr.stack and not (self.opaque and self.opaque.search(cb.name)):
                 # async fn: the coroutine captures the fn's arguments in order
                 return self._inline(fr, st, co, [("coroutine", co.name, tuple(fut[2]))], site, cont, self_is_state=True)
+        # lazily evaluated future adaptors (futures-rs, tracing, std): awaiting them awaits their parts
+        if fut[0] == "variant" and fut[1] in ("std::panic::AssertUnwindSafe", "future::YieldThenReturn") and fut[3]:
+            if fut[1] == "future::YieldThenReturn":
+                st.effects.append(("yield-once", site))
+                v = fut[3][0]
+                return cont(st, v[3][0] if is_variant(v, "std::option::Option", "Some") else ("field", ("as", v, "Some"), 0))
+            return self._await(fr, st, fut[3][0], site, cont)
+        if fut[0] == "call":
+            path, a = fut[1], fut[2]
+            if re.search(r"TryFutureExt::and_then$", path) and len(a) == 2:
+                return self._await(fr, st, a[0], site, lambda s, r: self._case(s, r, "r", self.RES, site, lambda s2, n, p:
+                                   self._callf(fr, s2, a[1], [p()], site, lambda s3, f2: self._await(fr, s3, f2, site, cont)) if n == "Ok" else cont(s2, self.err(p()))))
+            if re.search(r"TryFutureExt::(map_ok|map_err)$", path) and len(a) == 2:
+                which = "Ok" if path.endswith("map_ok") else "Err"
+                return self._await(fr, st, a[0], site, lambda s, r: self._case(s, r, "r", self.RES, site, lambda s2, n, p:
+                                   self._callf(fr, s2, a[1], [p()], site, lambda s3, v: cont(s3, ("variant", "std::result::Result", n, (v,)))) if n == which else cont(s2, ("variant", "std::result::Result", n, (p(),)))))
+            if re.search(r"FutureExt::then$", path) and len(a) == 2:
+                return self._await(fr, st, a[0], site, lambda s, r: self._callf(fr, s, a[1], [r], site, lambda s2, f2: self._await(fr, s2, f2, site, cont)))
+            if re.search(r"FutureExt::map$", path) and len(a) == 2:
+                return self._await(fr, st, a[0], site, lambda s, r: self._callf(fr, s, a[1], [r], site, cont))
+            if re.search(r"FutureExt::catch_unwind$", path) and len(a) == 1:
+                uid = self.fresh()
+                key = ("panics", uid)
+                st_p = st.fork()
+                st_p.conds.append((key, True))
+                st_p.effects.append(("caught-panic", a[0], site, uid))
+                cont(st_p, self.err(("panic", uid)))
+                st_n = st
+                st_n.conds.append((key, False))
+                return self._await(fr, st_n, a[0], site, lambda s, r: cont(s, self.ok(r)))
+            if re.search(r"Instrument::instrument$|Instrument::in_current_span$|FutureExt::boxed(_local)?$|FutureExt::fuse$|Box::pin$|pin::Pin::<.*>::new$", path) and a:
+                if "instrument" in path:
+                    st.effects.append(("instrumented", a[0], a[1] if len(a) > 1 else None, site))
+                return self._await(fr, st, a[0], site, cont)
+        if fut[0] == "ref":
+            # `(&mut fut).await`
+            return self._await(fr, st, self.read(st, fut[1]), site, cont)
         uid = self.fresh()
         st.effects.append(("await", fut, site, uid))
         cont(st, ("await", fut, uid))
